@@ -5,8 +5,7 @@ usage: drill.py <PROP> <VARIANT> <src_dir> <demo_dest_dir> [--race] [--checks C0
 
  src_dir holds patch.diff, demo_test.go (or demo/main.go) and README.md.
  Steps: (1) scratch worktree of /repo HEAD under /tmp: apply the patch, run the pinned suite, run the demonstration
- (must fail), revert the patch, run the demonstration (must pass); (2) apply the patch to /repo, run the checks,
- undo (git checkout -- .); (3) store everything under /verif/seeded/<PROP>-<VARIANT>/ with meta.json.
+ (must fail), revert the patch, run the demonstration (must pass); (2) second scratch worktree with the patch, checks built against it (VERIF_REPO), removed afterwards; (3) store everything under /verif/seeded/<PROP>-<VARIANT>/ with meta.json.
 """
 import json, os, shutil, subprocess, sys, time
 
@@ -75,31 +74,34 @@ def main():
     finally:
         sh(f"git -C /repo worktree remove --force {wt}")
         shutil.rmtree(wt, ignore_errors=True)
-    # run the checks against the change in /repo itself, then undo
-    rc, o = sh("git -C /repo status --porcelain")
-    if o.strip():
-        print("/repo is not clean:", o)
-        return 2
+    # run the checks against a scratch worktree with the change applied (VERIF_REPO): /repo itself is never touched
     results = {}
-    rc, o = sh(f"git -C /repo apply {patch}")
-    if rc != 0:
-        rc, o = sh(f"git -C /repo apply -3 {patch}")
+    wt2 = f"/tmp/drillrepo-{name}"
+    sh(f"git -C /repo worktree remove --force {wt2}")
+    shutil.rmtree(wt2, ignore_errors=True)
+    rc, o = sh(f"git -C /repo worktree add --detach {wt2} HEAD")
     try:
+        rc, o = sh(f"git apply {patch}", cwd=wt2)
+        if rc != 0:
+            rc, o = sh(f"git apply -3 {patch}", cwd=wt2)
+        env_prefix = f"VERIF_REPO={wt2} "
         for c in checks:
             t0 = time.time()
-            rc, o = sh(f"cd /verif && rm -rf replays/{c} && bin/check {c} {tier}", timeout=7200)
+            rc, o = sh(f"cd /verif && rm -rf replays/{c} && {env_prefix}bin/check {c} {tier}", timeout=7200)
             sigs = [l.strip() for l in o.splitlines() if l.strip().startswith("signature:")]
             results[c] = {"exit": rc, "detected": rc == 1, "signatures": sigs[:6], "wall_s": round(time.time() - t0, 1),
                           "summary": [l for l in o.splitlines() if l.startswith(c + " ")][-1:]}
     finally:
-        sh("git -C /repo checkout -- . && git -C /repo clean -fdq -e '*.orig' . ; git -C /repo status --porcelain")
+        sh(f"git -C /repo worktree remove --force {wt2}")
+        shutil.rmtree(wt2, ignore_errors=True)
         sh("rm -rf /verif/replays")
     meta["checks_run"] = results
     meta["detected_by"] = [c for c, r in results.items() if r["detected"]]
-    shutil.copy(patch, f"{out}/patch.diff")
-    shutil.copy(demo, f"{out}/demo_test.go")
-    if os.path.exists(os.path.join(src, "README.md")):
-        shutil.copy(os.path.join(src, "README.md"), f"{out}/README.md")
+    if os.path.abspath(src) != os.path.abspath(out):
+        shutil.copy(patch, f"{out}/patch.diff")
+        shutil.copy(demo, f"{out}/demo_test.go")
+        if os.path.exists(os.path.join(src, "README.md")):
+            shutil.copy(os.path.join(src, "README.md"), f"{out}/README.md")
     meta["demo_destination"] = f"{dest}/mut_demo_{variant.lower()}_test.go"
     old = {}
     if os.path.exists(f"{out}/meta.json"):
